@@ -61,10 +61,16 @@ def plan(tier, seed):
 
 
 def warm():
-    from mc.warm import warm_metrics
-    warm_metrics()
+    # the pristine snapshot is taken right after import, BEFORE any library call
     import opfython.models  # noqa
+    import opfython.math.general  # noqa
+    import opfython.stream.splitter  # noqa
+    import opfython.utils.converter  # noqa
     snapshot_module_state()
+    from mc.warm import warm_metrics, warm_dtypes
+    warm_metrics()
+    warm_dtypes()
+    restore_module_state()
 
 
 # --------------------------------------------------------------------------
@@ -220,6 +226,8 @@ def run_history(name, vs, hist):
     array).  Legacy form (i, j) = call.  Returns (problem, symptom) or (None, None)."""
     import opfython.math.distance as D
     fn = D.DISTANCES[name]
+    refs = pristine_refs(name, vs)
+    restore_module_state()        # every history starts from the state right after import
     pool = [np.array(v, dtype=float) for v in vs]
     cur = list(range(len(vs)))
     for step, op in enumerate(hist):
@@ -230,15 +238,19 @@ def run_history(name, vs, hist):
             pool[i][:] = np.array(vs[k], dtype=float)
             cur[i] = k
             continue
+        if op[0] == "c32":
+            # an evaluation on single-precision copies is only part of the history
+            _, i, j = op
+            try:
+                fn(np.array(vs[cur[i]], dtype=np.float32), np.array(vs[cur[j]], dtype=np.float32))
+            except Exception:
+                pass
+            continue
         _, i, j = op
         expected = tuple(bits(np.array(vs[c], dtype=float)) for c in cur)
-        # pristine reference of this call: fresh arrays holding the current values
-        rx = np.array(vs[cur[i]], dtype=float)
-        ry = rx if i == j else np.array(vs[cur[j]], dtype=float)
-        try:
-            ref = val_repr(fn(rx, ry))
-        except Exception as ex:
-            ref = "raised " + type(ex).__name__
+        # pristine reference of this call: fresh arrays holding the current values, evaluated as
+        # the very first call after import (table computed once per metric)
+        ref = refs[(cur[i], cur[j], i == j)]
         try:
             got = val_repr(fn(pool[i], pool[j]))
         except Exception as ex:
@@ -257,9 +269,35 @@ def run_history(name, vs, hist):
     return None, None
 
 
+_REFS = {}
+
+
+def pristine_refs(name, vs):
+    key = (name, tuple(vs))
+    if key in _REFS:
+        return _REFS[key]
+    import opfython.math.distance as D
+    fn = D.DISTANCES[name]
+    table = {}
+    for a in range(len(vs)):
+        for b in range(len(vs)):
+            for alias in ((False, True) if a == b else (False,)):
+                restore_module_state()
+                rx = np.array(vs[a], dtype=float)
+                ry = rx if alias else np.array(vs[b], dtype=float)
+                try:
+                    table[(a, b, alias)] = val_repr(fn(rx, ry))
+                except Exception as ex:
+                    table[(a, b, alias)] = "raised " + type(ex).__name__
+    # an aliased call on equal values of two different pool slots cannot occur (alias means i == j)
+    _REFS[key] = table
+    return table
+
+
 def hist_ops(nv):
     calls = [("c", i, j) for i in range(nv) for j in range(nv)]
     writes = [("w", i, k) for i in range(nv) for k in range(nv)]
+    writes += [("c32", 0, 1), ("c32", 1, 1)]     # single-precision evaluations (history only)
     return calls, writes
 
 
@@ -310,10 +348,19 @@ DATA = {
 }
 
 
-def make_world(seed):
+TINY_NEGATIVE = 0.3 - 0.2 - 0.1        # -2.78e-17: what is left of "zero" after ordinary arithmetic
+SIGNED_OK = None
+
+
+def make_world(seed, metric=None):
     sc = [1.0, 0.5, 2.0, 3.0][seed % 4] if seed else 1.0
     w = {k: (np.array(v, dtype=float) * sc if k.startswith("X") else np.array(v, dtype=int))
          for k, v in DATA.items()}
+    if metric is not None and (metric in axioms.R_CLASS or metric == "canberra"):
+        # metrics defined for all reals: some exact zeros of the data become tiny negative values
+        for k in ("X", "Xu", "Xv", "Xq"):
+            w[k][0, 1] = TINY_NEGATIVE
+            w[k][-1, 0] = TINY_NEGATIVE
     return w
 
 
@@ -396,7 +443,7 @@ def run_ops(kind, metric, seed, hist, tmpdir, check=True, refs=None):
     """Replays a history on a pristine world.  Returns (problem, symptom,
     state_key, value of the last op)."""
     restore_module_state()
-    w = make_world(seed)
+    w = make_world(seed, metric)
     orig = {k: bits(w[k]) for k in WORLD_KEYS}
     m = new_model(kind, metric)
     val = None
@@ -489,18 +536,18 @@ def observe_full(kind, m, w):
 
 def run_twice(kind, metric, seed, between, tmpdir):
     restore_module_state()
-    w1 = make_world(seed)
+    w1 = make_world(seed, metric)
     m1 = new_model(kind, metric)
     apply_op("fit", kind, metric, w1, m1, tmpdir)
     o1 = observe_full(kind, m1, w1)
-    wb = make_world(seed + 1)
+    wb = make_world(seed + 1, metric)
     mb = new_model(kind, metric)
     for op in between:
         try:
             apply_op(op, kind, metric, wb, mb, tmpdir)
         except Exception:
             pass
-    w2 = make_world(seed)
+    w2 = make_world(seed, metric)
     m2 = new_model(kind, metric)
     apply_op("fit", kind, metric, w2, m2, tmpdir)
     o2 = observe_full(kind, m2, w2)
